@@ -426,6 +426,7 @@ class CaseRun:
             "nontrivial": False,
         }
         self.eventlog: list = []
+        self.base_lines: dict[tuple, int] = {}
         self.bad_keys: set = set()
         self.result_digests: dict[str, str] = {}
         self.result_values: dict[str, Any] = {}
@@ -606,12 +607,13 @@ class CaseRun:
                 )
             else:
                 aborts = []
-                if pop.get("n_aborts") and base is not None:
+                if pop.get("n_aborts"):
+                    have_lines = base is not None
                     cand = [
                         (c, k)
                         for c in sorted(scripts)
                         for k in range(len(scripts[c]))
-                        if self.base_lines.get((r, c, k), 0) > 0
+                        if (self.base_lines.get((r, c, k), 0) > 0 if have_lines else scripts[c][k]["op"] != "nop")
                     ]
                     for _ in range(min(len(cand), rng.randint(1, pop["n_aborts"]))):
                         c, k = cand.pop(rng.randrange(len(cand)))
@@ -619,7 +621,8 @@ class CaseRun:
                         if rng.random() < 0.33:
                             aborts.append({"c": c, "o": k, "after": rng.randint(1, 20), "exc": exc})
                         else:
-                            L = self.base_lines[(r, c, k)]
+                            # a population that runs before the baseline does not know how long the op is
+                            L = self.base_lines[(r, c, k)] if have_lines else rng.choice((15, 40, 100, 250))
                             aborts.append({"c": c, "o": k, "l": rng.randint(1, L), "exc": exc})
                 total = sum(v for (rr, _, _), v in getattr(self, "base_lines", {}).items() if rr == r)
                 sched = Sched(
